@@ -20,8 +20,8 @@ variables and constants), for which agreement on a 3 x 3 grid is agreement as po
 evaluated are index expressions.  Decided per contribution:
   (b) every row read lies inside [0, T);
   (c) the rows read are all of [0, T): no declared weighted density is left out (which is what a shifted offset causes).
-A contribution whose declaration is not a straight builder chain (FMT versions selected by `match`, `extend` with a computed
-vector) or whose row expressions cannot be resolved is reported as not decided (`blind`), never as a violation."""
+A contribution whose declaration is not one linear builder chain (FMT versions selected by `match`; `extend` is followed only
+for a literal list of shapes) or whose row expressions cannot be resolved is reported as not decided (`blind`), never as a violation."""
 from cfg import Defs
 from facts import callee
 from report import RuleResult
@@ -41,8 +41,6 @@ class NeedVar(Exception):
 
 def _declared(F, b, depth=0):
     """(L, SC, VC, SF, VF) from a straight builder chain, else None"""
-    if any(blk["term"]["k"] == "switch" for blk in b.blocks if not blk.get("cleanup")):
-        return None
     defs = Defs(b)
     if depth < 2 and not any(callee(t)[0].endswith("WeightFunctionInfo::<T>::new") for bi, t in b.calls()):
         # `fn weight_functions(..) { att_weight_functions(&self.parameters, PSI_DFT, temperature) }`
@@ -54,12 +52,31 @@ def _declared(F, b, depth=0):
     news = [t for bi, t in b.calls() if callee(t)[0].endswith("WeightFunctionInfo::<T>::new")]
     adds = [t for bi, t in b.calls() if callee(t)[0].endswith("WeightFunctionInfo::<T>::add")]
     ext = [t for bi, t in b.calls() if callee(t)[0].endswith("WeightFunctionInfo::<T>::extend")]
-    if len(news) != 1 or ext or not adds:
+    if len(news) != 1 or not (adds or ext):
+        return None
+    # one linear chain new(..).add(..).add(..): every add / extend receives the result of the previous link
+    link, seen_links = news[0]["dest"]["l"], 0
+    for _ in range(len(adds) + len(ext)):
+        nxt = [t for t in adds + ext if t["args"][0].get("k") in ("copy", "move") and t["args"][0]["place"]["l"] == link and not t["args"][0]["place"]["p"]]
+        if len(nxt) != 1:
+            return None
+        link = nxt[0]["dest"]["l"]
+        seen_links += 1
+    if seen_links != len(adds) + len(ext):
         return None
     loc = news[0]["args"][1]
     if loc.get("k") != "const" or loc.get("text") not in ("true", "false"):
         return None
     counts = {"L": 1 if loc["text"] == "true" else 0, "SC": 0, "VC": 0, "SF": 0, "VF": 0}
+    # `WeightFunctionInfo::new(arr1(&[0]), ..)`: a component index of fixed length (pure-component functionals)
+    ci = news[0]["args"][0]
+    if ci.get("k") in ("copy", "move"):
+        ds = defs.of(ci["place"]["l"])
+        if len(ds) == 1 and ds[0][0] == "call" and str(callee(ds[0][2])[2]) == "arr1" and ds[0][2]["args"]:
+            import re
+            m = re.search(r"\[usize; (\d+)\]", (b.opty(ds[0][2]["args"][0]) or {}).get("s", ""))
+            if m:
+                counts["fixed_n"] = int(m.group(1))
     for t in adds:
         fmt = t["args"][2]
         if fmt.get("k") != "const" or fmt.get("text") not in ("true", "false"):
@@ -69,6 +86,47 @@ def _declared(F, b, depth=0):
             return None
         vec = shape in VECTOR_SHAPES
         counts[("VF" if vec else "SF") if fmt["text"] == "true" else ("VC" if vec else "SC")] += 1
+    for t in ext:
+        # `.extend(vec![Shape::A, Shape::B, ..].into_iter().map(|s| WeightFunction { .., shape: s }).collect(), fmt)`: the one array literal
+        # of shapes written in this body lists the weight functions
+        fmt = t["args"][2]
+        if len(ext) != 1 or fmt.get("k") != "const" or fmt.get("text") not in ("true", "false"):
+            return None
+        lists = []
+        for bi, si, st in b.stmts():
+            rv = st["rv"]
+            if rv["k"] == "agg" and rv["kind"].get("t") == "array" and rv["ops"]:
+                vs = [_variant(b, defs, o) for o in rv["ops"]]
+                if all(v is not None for v in vs):
+                    lists.append(vs)
+        if len(lists) != 1:
+            return None
+        # the closure that turns the shapes into weight functions must use its parameter as the shape
+        ok_closure = False
+        for c in F.bodies:
+            if c.is_closure() and (c.d.get("parent") or "") == b.path:
+                for bi, si, st in c.stmts():
+                    rv = st["rv"]
+                    if rv["k"] == "agg" and str(rv["kind"].get("adt", "")).endswith("WeightFunction") and "shape" in (rv["kind"].get("fields") or []):
+                        so = rv["ops"][rv["kind"]["fields"].index("shape")]
+                        cd = Defs(c)
+                        l = so["place"]["l"] if so.get("k") in ("copy", "move") else None
+                        for _ in range(6):
+                            if l is None:
+                                break
+                            if 2 <= l <= c["arg_count"]:
+                                ok_closure = True
+                                break
+                            ds = cd.of(l)
+                            if len(ds) == 1 and ds[0][0] == "stmt" and ds[0][4]["k"] == "use" and ds[0][4]["op"].get("k") in ("copy", "move"):
+                                l = ds[0][4]["op"]["place"]["l"]
+                            else:
+                                break
+        if not ok_closure:
+            return None
+        for shape in lists[0]:
+            vec = shape in VECTOR_SHAPES
+            counts[("VF" if vec else "SF") if fmt["text"] == "true" else ("VC" if vec else "SC")] += 1
     return counts
 
 
@@ -444,7 +502,7 @@ def run(F):
                    note="row expression not resolved (%s): not decided" % unresolved[0][1])
             r.blind.append("R64: %s: a row expression of the weighted densities could not be resolved (%s at %s)" % (name, unresolved[0][1], unresolved[0][0][1]["span"]))
             continue
-        ns = GRID if probe.get("n") else (1,)
+        ns = (decl["fixed_n"],) if decl.get("fixed_n") else GRID if (probe.get("n") or probe.get("T")) else (1,)
         for n in ns:
             for dim in GRID:
                 T = total_rows(decl, n, dim)
@@ -472,6 +530,6 @@ def run(F):
         else:
             r.inst(iid, hb.file_line(), "ok", declared=decl, sites=len(sites), grid="n x dim in %s x %s" % (list(ns), list(GRID)))
     if "dft" in (F.meta.get("features") or []) or "all_models" in (F.meta.get("features") or []):
-        r.floor("functional contributions with a decided weighted-density layout", n_decided, 10)
+        r.floor("functional contributions with a decided weighted-density layout", n_decided, 12)
     r.exhaustive = True
     return [r]
